@@ -264,7 +264,7 @@ def guard_round_sites(F, E, fn, c):
         if n.kind == 'ctor' and ir.is_expr(n.e) and (n.e.get('cls') or '').startswith('ffsm2::detail::GuardControlT<'):
             out.append(n)
         elif n.kind == 'call':
-            g, _ = call_target(F, E, fn, n) if (n.e.get('fn') is not None or n.e.get('pm')) else (None, None)
+            g = F.fn(n.e['fn']) if n.e.get('fn') is not None else None
             cands = [g] if g is not None else []
             if n.e.get('pm'):
                 for r in E.resolve_pm_all(fn, n.e):
